@@ -22,6 +22,7 @@ import (
 	"fmt"
 	"io"
 	"io/ioutil"
+	"mime"
 	"mime/multipart"
 	"net/http"
 	"net/textproto"
@@ -147,6 +148,8 @@ func (m *Modifier) ModifyResponse(res *http.Response) error {
 	// Multipart range request.
 	var mpbody bytes.Buffer
 	mpw := multipart.NewWriter(&mpbody)
+	// A boundary the writer rejects (empty, longer than 70 characters, illegal
+	// characters) is not used: the writer then keeps its own random boundary.
 	mpw.SetBoundary(m.boundary)
 
 	for _, rng := range ranges {
@@ -170,7 +173,8 @@ func (m *Modifier) ModifyResponse(res *http.Response) error {
 
 	res.ContentLength = int64(len(mpbody.Bytes()))
 	res.Body = ioutil.NopCloser(bytes.NewReader(mpbody.Bytes()))
-	res.Header.Set("Content-Type", fmt.Sprintf("multipart/byteranges; boundary=%s", m.boundary))
+	// Announce the boundary the body was written with, quoted when it has to be.
+	res.Header.Set("Content-Type", mime.FormatMediaType("multipart/byteranges", map[string]string{"boundary": mpw.Boundary()}))
 
 	return nil
 }
